@@ -529,6 +529,23 @@ class Rewriter:
                 self.rec('R11', '.unwrap()', '.unwrap_()')
                 k += 1
                 continue
+            if is_id(t, 'range') and prv_out() is not None and is_p(prv_out(), '.') and nxt(k) < n and is_p(toks[nxt(k)], '('):
+                # R17: `.range(ARGS).next().transpose()` -> `.range_first_(ARGS)` (first entry of a prefix range)
+                pc_ = match_close(toks, nxt(k))
+                tail = []
+                q_ = pc_
+                for _ in range(8):
+                    q_ = nxt(q_)
+                    if q_ >= n:
+                        break
+                    tail.append(toks[q_])
+                tt = ''.join(x.text for x in tail)
+                if tt.startswith('.next().transpose()'):
+                    out.append(T('ident', 'range_first_', t.start))
+                    self.rec('R17', '.range(..).next().transpose()', '.range_first_(..)')
+                    out.extend(toks[nxt(k):pc_ + 1])
+                    k = q_ + 1
+                    continue
             if is_id(t, 'sort_by') and prv_out() is not None and is_p(prv_out(), '.'):
                 out.append(T('ident', 'sort_by_', t.start))
                 self.rec('R5', '.sort_by(', '.sort_by_(')
